@@ -145,6 +145,18 @@ def run(ctx):
             ctx.report("core rule %s on %r: implementation %s, RFC 5234 B.1 %s" % (name, s, py, model),
                        {"kind": "core-string", "rule": name, "source": [ord(c) for c in s], "subclass": issub, "implementation": py, "rfc": model},
                        key="corestr:%s:%s" % (name, lib.digest(s)))
+    # the core rules are shared by every grammar AND by every thread: the same single-character requests from four threads at once
+    tj = []
+    for name in CORE:
+        rule = P.Rule(name)
+        for ch in ["A", "f", "G", "g", "K", "k", "0", "9", ":", " ", "\t", "\r\n", "\x00", "~", "\x7f", "1", "2", '"']:
+            tj.append(("%s on %r" % (name, ch), (lambda r=rule, c=ch: lib.py_lparse(P, r, c, 0, full=False))))
+    for label, seq, conc in lib.thread_probe(tj, seconds=ctx.budget(2.0, 12.0), seed=ctx.seed):
+        if rep < 12:
+            rep += 1
+            found = True
+            ctx.report("core rule %s: sequentially %s, from one of four concurrent threads %s" % (label, seq, conc),
+                       {"kind": "core-threads", "case": label, "sequential": seq, "concurrent": conc}, key="corethreads:" + label)
     nchars = 14 * 0x110000 * 2
     ctx.coverage.update({
         "evaluations": nchars + len(exp),
